@@ -4,7 +4,7 @@ import PyatvModel.C18.Model
 Line protocol (C18):
   run  <script> <env> <fault>   → `<outcome> <ledger> <points>`
   held <script> <env> <k>       → `<ledger>` of the call parked in fault point k, or `end`
-  script  = connect:<csv protocol indices|-> | stream:<volKnown><metaGiven><airplay2> | play:<local>
+  script  = connect:<csv protocol indices|-> | stream:<volKnown><metaGiven><airplay2> | play:<local><airplay2>
             (prefix `orig-` selects the pre-repair scripts)
   env     = csv of resource names | -          fault = - | <k>:fail | <k>:cancel
   outcome = ok | fail | cancel | refused       ledger = sorted csv of resource names | -
@@ -28,6 +28,7 @@ def Res.ofStr? (s : String) : Option Res :=
   | "eventch" => some .eventch
   | "fbtask" => some .fbtask
   | "audiosock" => some .audiosock
+  | "ptiming" => some .ptiming
   | _ =>
     match suffixNat? "conn" s, suffixNat? "task" s, suffixNat? "takeover" s with
     | some p, _, _ => some (.conn p)
@@ -62,7 +63,13 @@ def parseScript? (s : String) : Option Prog :=
     | _ => none
   | ["play", f] =>
     match f.toList with
-    | [l] => (bit? l).map (fun l => if orig then Orig.playUrl l else playUrl l)
+    | [l] => do
+      let l ← bit? l
+      if orig then pure (Orig.playUrl l) else none
+    | [l, p] => do
+      let l ← bit? l
+      let p ← bit? p
+      if orig then none else pure (playUrl l p)
     | _ => none
   | _ => none
 
